@@ -1205,7 +1205,7 @@ public:
     // testing if they are defined in this observer
     for (typename std::vector<NodeGraphid>::iterator currGraphLeave = graphLeaves.begin(); currGraphLeave != graphLeaves.end(); currGraphLeave++)
     {
-      Nref foundLeafObject = graphidToN_.at(*currGraphLeave);
+      Nref foundLeafObject = getNodeFromGraphid(*currGraphLeave);
       if (foundLeafObject != 00)
         leavesToReturn.push_back(foundLeafObject);
     }
@@ -1227,7 +1227,7 @@ public:
     // testing if they are defined in this observer
     for (typename std::vector<NodeGraphid>::iterator currGraphLeave = graphLeaves.begin(); currGraphLeave != graphLeaves.end(); currGraphLeave++)
     {
-      Nref foundLeafObject = graphidToN_.at(*currGraphLeave);
+      Nref foundLeafObject = getNodeFromGraphid(*currGraphLeave);
       if (foundLeafObject != 00)
         leavesToReturn.push_back(getNodeIndex(foundLeafObject));
     }
@@ -1248,7 +1248,7 @@ public:
     // testing if they are defined in this observer
     for (const auto& currGraphNode : graphNodes)
     {
-      Nref foundNodeObject = graphidToN_.at(currGraphNode);
+      Nref foundNodeObject = getNodeFromGraphid(currGraphNode);
       if (foundNodeObject != 00)
         nodesToReturn.push_back(foundNodeObject);
     }
@@ -1269,7 +1269,7 @@ public:
     // testing if they are defined in this observer
     for (const auto& currGraphNode : graphNodes)
     {
-      Nref foundNodeObject = graphidToN_.at(currGraphNode);
+      Nref foundNodeObject = getNodeFromGraphid(currGraphNode);
       if (foundNodeObject != 00)
         nodesToReturn.push_back(getNodeIndex(foundNodeObject));
     }
